@@ -7,10 +7,10 @@ snap=/dev/shm/repo-snap-$$
 rsync -a --exclude .git /repo/ $snap/ || exit 2
 git -C /repo diff --quiet || { echo "/repo not clean at snapshot time"; exit 2; }
 head=$(git -C /repo rev-parse --short HEAD)
-mkdir -p /verif/evidence/thorough /verif/replays/thorough
+mkdir -p ${EVID:-/verif/evidence/thorough} /verif/replays/thorough
 for p in ${PROPS:-C09 C14 C15 C02 C07 C16 C03 C06 C17 C18 C19 C01 C04 C05 C08 C10}; do
   echo "== $p $(date +%H:%M:%S) repo=$head seed=${VERIF_SEED:-1}"
-  VERIF_REPO=$snap VERIF_WORKERS=${WORKERS:-8} VERIF_EVIDENCE_DIR=/verif/evidence/thorough VERIF_REPLAY_DIR=/verif/replays/thorough ./check $p --tier thorough 2>&1 | cut -c1-600 | head -30
+  VERIF_REPO=$snap VERIF_WORKERS=${WORKERS:-8} VERIF_EVIDENCE_DIR=${EVID:-/verif/evidence/thorough} VERIF_REPLAY_DIR=/verif/replays/thorough ./check $p --tier thorough 2>&1 | cut -c1-600 | head -30
   echo "== $p rc=${PIPESTATUS[0]}"
 done
 rm -rf $snap
